@@ -9,6 +9,8 @@ import (
 )
 
 func init() {
+	families["fault_merge"] = genFaultMerge
+	families["faults_big"] = genFaultsBig
 	families["fault_dv_partial"] = genFaultDvPartial
 	families["conc_write"] = genConcWrite
 	families["fault_transient"] = genFaultTransient
@@ -171,6 +173,11 @@ func genFaultRead(r *rand.Rand, i int) Scenario {
 	}
 	sc.Ops = append(sc.Ops, Op{Op: "load", File: 1, Seg: seg, Backing: "file"})
 	before := r.Intn(6)
+	if r.Intn(2) == 0 {
+		for _, f := range sc.Universe {
+			sc.Ops = append(sc.Ops, Op{Op: "contains", Seg: seg, Field: f, Term: B([]byte("x"))}) // the field's FST is cached from here on
+		}
+	}
 	sc.Ops = append(sc.Ops, readOps(r, &sc, seg, len(b1), before, &cfg, 100)...)
 	// iterators and readers opened while the storage is healthy are used again after it failed
 	var vocab []Pair
@@ -215,6 +222,21 @@ func genFaultRead(r *rand.Rand, i int) Scenario {
 		sc.Ops = append(sc.Ops, Op{Op: "fail_after", Seg: seg, N: r.Intn(9)})
 	default:
 		sc.Ops = append(sc.Ops, Op{Op: "close_file", Seg: seg})
+	}
+	// an iterator obtained before the failure is handed as prealloc to a list that was also obtained before it: the
+	// hand-over fails (the chunk tables cannot be read) - and the caller goes on using the handle it still holds
+	if npers > 1 && r.Intn(2) == 0 {
+		sc.Ops = append(sc.Ops, Op{Op: "it_open", Pl: 700 + 1, It: 720, Prealloc: 720, Freq: true, Norm: true, Locs: true},
+			Op{Op: "it_next", It: 720}, Op{Op: "it_next", It: 720})
+	}
+	// DocsMatchingTerms over a list of several pairs (1-hit and general terms): the whole answer, nothing, or an error
+	if len(vocab) > 2 {
+		pairs := []Pair{}
+		for k := 0; k < 5; k++ {
+			pairs = append(pairs, vocab[r.Intn(len(vocab))])
+		}
+		pairs = append(pairs, Pair{"body", B([]byte("common"))}, vocab[r.Intn(len(vocab))])
+		sc.Ops = append(sc.Ops, Op{Op: "match", Seg: seg, Pairs: pairs}, Op{Op: "match", Seg: seg, Pairs: pairs[2:]})
 	}
 	// a caller that keeps calling after an error: more calls than the list has postings
 	for k := 0; k < npers; k++ {
@@ -635,6 +657,9 @@ func genFaultDvPartial(r *rand.Rand, i int) Scenario {
 	n := 1024 + 6 + i%3
 	k0 := 5 + (i/16)%4 // documents with values in chunk 0
 	nreads := i % 16
+	if (i/16)%3 != 0 {
+		nreads = 2 * (i % 16) // two readers to load: the failure may fall into the second field's load
+	}
 	if (i/256)%2 == 1 {
 		// a much larger chunk 0: its offsets lie beyond the end of chunk 1's data
 		k0 = 40
@@ -648,13 +673,14 @@ func genFaultDvPartial(r *rand.Rand, i int) Scenario {
 			if d%2 == 1 {
 				terms = append(terms, TermOcc{Term: B([]byte(fmt.Sprintf("w%d", d))), Freq: 1, Locs: []Loc{}})
 			}
-			b[d] = Doc{{Name: "f", Len: len(terms), DV: true, Value: Bytes{}, Terms: terms}}
+			b[d] = Doc{{Name: "f", Len: len(terms), DV: true, Value: Bytes{}, Terms: terms},
+				{Name: "g", Len: 1, DV: true, Value: Bytes{}, Terms: []TermOcc{{Term: B([]byte(fmt.Sprintf("g%04d", d))), Freq: 1, Locs: []Loc{}}}}}
 		}
 	}
-	sc := Scenario{Name: fmt.Sprintf("fault_dv_partial-%d", i), NormKind: "code", Universe: []string{"_id", "f"}, Batches: []Batch{b}, Tags: []string{"fault_dv_partial"}}
+	sc := Scenario{Name: fmt.Sprintf("fault_dv_partial-%d", i), NormKind: "code", Universe: []string{"_id", "f", "g"}, Batches: []Batch{b}, Tags: []string{"fault_dv_partial"}}
 	sc.Ops = append(sc.Ops, Op{Op: "watchdog", Watchdog: 3000}, Op{Op: "build", Seg: 1, Batch: 0, Mode: 0},
 		Op{Op: "persist", Seg: 1, File: 1}, Op{Op: "load", File: 1, Seg: 2, Backing: "file"},
-		Op{Op: "dv_open", Seg: 2, R: 1, Fields: []string{"f"}})
+		Op{Op: "dv_open", Seg: 2, R: 1, Fields: [][]string{{"f"}, {"f", "g"}, {"g", "f"}}[(i/16)%3]})
 	op := "fail_after"
 	if (i/64)%2 == 1 {
 		op = "fail_once"
@@ -663,6 +689,10 @@ func genFaultDvPartial(r *rand.Rand, i int) Scenario {
 		// chunk 0 loaded, chunk 1 fails half-way, chunk 0 again
 		sc.Ops = append(sc.Ops, Op{Op: "dv_visit", R: 1, N: 0}, Op{Op: "dv_visit", R: 1, N: 1},
 			Op{Op: op, Seg: 2, N: nreads}, Op{Op: "dv_visit", R: 1, N: 1024})
+		if i%2 == 1 {
+			// the caller retries the same chunk at once
+			sc.Ops = append(sc.Ops, Op{Op: "dv_visit", R: 1, N: 1024}, Op{Op: "dv_visit", R: 1, N: 1025}, Op{Op: "dv_visit", R: 1, N: n - 1})
+		}
 		for d := 0; d < k0; d++ {
 			sc.Ops = append(sc.Ops, Op{Op: "dv_visit", R: 1, N: d})
 		}
@@ -676,5 +706,67 @@ func genFaultDvPartial(r *rand.Rand, i int) Scenario {
 		}
 		sc.Ops = append(sc.Ops, Op{Op: "dv_visit", R: 1, N: 1}, Op{Op: "dv_visit", R: 1, N: 1026})
 	}
+	return sc
+}
+
+// faults_big: a file-backed segment whose data section is several times 64 KiB, persisted into destinations that
+// fail for good or for a single Write at offsets spread over the whole file (C11, C12)
+func genFaultsBig(r *rand.Rand, i int) Scenario {
+	n := 150 + r.Intn(120)
+	b := make(Batch, n)
+	for d := 0; d < n; d++ {
+		id := []byte(fmt.Sprintf("fb%04d", d))
+		val := make([]byte, 900+r.Intn(600))
+		r.Read(val) // incompressible: the file stays large
+		b[d] = Doc{{Name: "_id", Len: 1, Stored: true, Value: B(id), Terms: []TermOcc{{Term: B(id), Freq: 1, Locs: []Loc{}}}},
+			{Name: "blob", Len: 1, Stored: true, Value: B(val), Terms: []TermOcc{{Term: B([]byte("x")), Freq: 1, Locs: []Loc{}}}}}
+	}
+	sc := Scenario{Name: fmt.Sprintf("faults_big-%d", i), NormKind: "code", Universe: []string{"_id", "blob"}, Batches: []Batch{b}, Tags: []string{"faults_big"}}
+	sc.Ops = append(sc.Ops, Op{Op: "build", Seg: 1, Batch: 0, Mode: 0}, Op{Op: "persist", Seg: 1, File: 1},
+		Op{Op: "load", File: 1, Seg: 2, Backing: "file"}, Op{Op: "load", File: 1, Seg: 3, Backing: "mem"},
+		Op{Op: "wfaults", Seg: 2, Stop: 3000 + r.Intn(2000)}, Op{Op: "wfaults", Seg: 3, Stop: 9000 + r.Intn(2000)}, Op{Op: "wfaults", Seg: 1, Stop: 9000 + r.Intn(2000)},
+		Op{Op: "persist", Seg: 2, File: 2}, Op{Op: "stored", Seg: 2, N: n - 1})
+	return sc
+}
+
+// fault_merge: one read of a file-backed merge input fails while the merge runs (the N-th read from its start, N
+// enumerated) and the storage works again: the merge either reports the error or produces the complete, correct
+// segment - whatever it had already copied when the read failed (C02, C03, C19)
+func genFaultMerge(r *rand.Rand, i int) Scenario {
+	n := 130 + r.Intn(170)
+	mk := func(n, base int) Batch {
+		b := make(Batch, n)
+		for d := 0; d < n; d++ {
+			id := []byte(fmt.Sprintf("a%04d", base+d))
+			doc := Doc{{Name: "_id", Len: 1, Stored: true, Value: B(id), Terms: []TermOcc{{Term: B(id), Freq: 1, Locs: []Loc{}}}},
+				{Name: "v", Len: 1, Stored: true, DV: true, Value: B([]byte(fmt.Sprintf("val%s", id))), Terms: []TermOcc{{Term: B([]byte(fmt.Sprintf("t%d", d%9))), Freq: 1, Locs: []Loc{}}}}}
+			b[d] = doc
+		}
+		return b
+	}
+	a, b := mk(n, 0), mk(3+r.Intn(5), 5000)
+	sc := Scenario{Name: fmt.Sprintf("fault_merge-%d", i), NormKind: "code", Universe: []string{"_id", "v"}, Batches: []Batch{a, b}, Tags: []string{"fault_merge"}}
+	sc.Ops = append(sc.Ops, Op{Op: "watchdog", Watchdog: 4000}, Op{Op: "build", Seg: 1, Batch: 0, Mode: 0}, Op{Op: "build", Seg: 2, Batch: 1, Mode: 0},
+		Op{Op: "persist", Seg: 1, File: 1}, Op{Op: "load", File: 1, Seg: 3, Backing: "file"})
+	drops := []DropSpec{{Kind: "nil"}, {Kind: "nil"}}
+	if (i/16)%2 == 1 {
+		drops[0] = DropSpec{Kind: "set", Docs: []int{r.Intn(n)}} // the re-encode path
+	}
+	in := []int{3, 2}
+	if (i/32)%2 == 1 {
+		in = []int{2, 3}
+		drops[0], drops[1] = drops[1], drops[0]
+	}
+	sc.Ops = append(sc.Ops, Op{Op: "fail_once", Seg: 3, N: i % 16},
+		Op{Op: "merge", File: 10, In: in, Drops: drops, Mode: 0, Buf: 4096}, Op{Op: "load", File: 10, Seg: 10, Backing: "mem"})
+	total := n + len(b)
+	for _, d := range []int{0, 1, 126, 127, 128, 129, 130, 200, n - 1, n, total - 2, total - 1, total} {
+		if d >= 0 {
+			sc.Ops = append(sc.Ops, Op{Op: "stored", Seg: 10, N: d})
+		}
+	}
+	sc.Ops = append(sc.Ops, Op{Op: "dict", Seg: 10, Field: "v"}, Op{Op: "dv_open", Seg: 10, R: 1, Fields: []string{"v"}}, Op{Op: "dv_visit", R: 1, N: 129}, Op{Op: "dv_visit", R: 1, N: 0},
+		// the input afterwards (the failure was transient): still the segment it was
+		Op{Op: "stored", Seg: 3, N: 128}, Op{Op: "stored", Seg: 3, N: 0}, Op{Op: "dict", Seg: 3, Field: "v"})
 	return sc
 }
